@@ -178,17 +178,20 @@ func c29ReadSite(fs []runtime.Frame) string {
 	return "SUnknown"
 }
 
-// logical write site ("lb", "ls", "ll" = writeBytes, WriteString/WriteStringNotLF, WriteStringPossibleLF)
+// logical write site ("lb", "ls", "ll" = writeBytes, WriteString/WriteStringNotLF, WriteStringPossibleLF of the
+// cbe / cte Writer) of a call that reached the destination
 func c29WriteSite(fs []runtime.Frame) string {
 	name := func(i int) string {
 		if i >= len(fs) {
 			return ""
 		}
 		fn := fs[i].Function
-		if !strings.HasPrefix(fn, c29Mod+"cbe.") && !strings.HasPrefix(fn, c29Mod+"cte.") {
-			return ""
+		for _, pkg := range []string{"cbe", "cte"} {
+			if strings.HasPrefix(fn, c29Mod+pkg+".(*Writer).") {
+				return fn[strings.LastIndex(fn, ".")+1:]
+			}
 		}
-		return fn[strings.LastIndex(fn, ".")+1:]
+		return ""
 	}
 	str := func(m string) string {
 		switch m {
@@ -199,18 +202,41 @@ func c29WriteSite(fs []runtime.Frame) string {
 		}
 		return "?"
 	}
+	// a string on its way through the StringWriterAdapter (the destination is no io.StringWriter)
+	for i := 0; i < len(fs) && i < 5; i++ {
+		if strings.HasSuffix(fs[i].Function, ".(*StringWriterAdapter).WriteString") {
+			return str(name(i + 1))
+		}
+	}
 	switch name(0) {
 	case "writeBytes":
-		for i := 1; i < len(fs) && i < 5; i++ {
-			if strings.HasSuffix(fs[i].Function, ".(*StringWriterAdapter).WriteString") {
-				return str(name(i + 1))
-			}
-		}
 		return "lb"
 	case "WriteString", "WriteStringNotLF", "WriteStringPossibleLF":
 		return str(name(0))
 	}
 	return "?"
+}
+
+// physical write site (Coq constructor of CE.Model.IoFail.site): the library function that made the call on the
+// destination. Only the five sites whose error handling the shape extraction classifies are known; a call on the
+// destination from anywhere else is SUnknown.
+func c29WritePhysSite(fs []runtime.Frame) string {
+	if len(fs) == 0 {
+		return "SUnknown"
+	}
+	switch fs[0].Function {
+	case c29Mod + "cbe.(*Writer).writeBytes":
+		return "WCbeBytes"
+	case c29Mod + "cbe.(*Writer).WriteString":
+		return "WCbeString"
+	case c29Mod + "cte.(*Writer).writeBytes":
+		return "WCteBytes"
+	case c29Mod + "cte.(*Writer).WriteStringNotLF":
+		return "WCteStringNotLF"
+	case c29Mod + "cte.(*Writer).WriteStringPossibleLF":
+		return "WCteStringLF"
+	}
+	return "SUnknown"
 }
 
 // ---------------------------------------------------------------------------
@@ -252,6 +278,7 @@ type c29WCall struct {
 	kind  byte // 'W' Write, 'S' WriteString
 	n     int
 	lsite string
+	psite string
 	event int
 }
 
@@ -270,7 +297,8 @@ func (w *c29Writer) do(kind byte, n int) (int, error) {
 	k := len(w.calls)
 	c := c29WCall{kind: kind, n: n, event: w.event}
 	if w.trace {
-		c.lsite = c29WriteSite(c29Frames())
+		fs := c29Frames()
+		c.lsite, c.psite = c29WriteSite(fs), c29WritePhysSite(fs)
 	}
 	w.calls = append(w.calls, c)
 	fail := (w.sched.sticky && w.failed) || w.sched.calls[k]
@@ -1023,7 +1051,167 @@ func c29GenValue(r *rand.Rand, depth int) interface{} {
 	}
 }
 
+// ---------------------------------------------------------------------------
+// directed inputs: payloads around and far beyond the writers' scratch buffers.
+//
+// Both Writers copy what they are given through a scratch buffer (32 bytes when new, grown on demand and kept by a
+// reused Marshaler / Encoder) or hand it to the destination in one call. Whether one logical write reaches the
+// destination as one call or as several, and what happens to the error of each of them, can only be seen with
+// payloads that do not fit: every string-like / array / big-number kind is therefore produced at lengths just below,
+// at and just above every power of two from 16 to 65536 and at a few lengths in between.
+
+var c29LongKinds = []string{"string", "string-in-list", "map-key", "map-value", "url", "bytes", "uint16s", "runes2", "runes3", "lines", "escapes", "bigint", "struct-field"}
+
+// the ladder of payload lengths (bytes)
+func c29LongLadder() []int {
+	out := []int{}
+	for b := 16; b <= 65536; b *= 2 {
+		out = append(out, b-1, b, b+1)
+	}
+	out = append(out, 40, 50, 100, 200, 1000, 3000, 5000, 10000, 70001, 100000)
+	sort.Ints(out)
+	return out
+}
+
+func c29Pattern(n int, alphabet string) string {
+	var b strings.Builder
+	for b.Len() < n {
+		b.WriteString(alphabet)
+	}
+	return b.String()[:n]
+}
+
+func c29LongValue(kind string, n int) (interface{}, bool) {
+	plain := c29Pattern(n, "abcdefghijklmnopqrstuvwxyz0123456789")
+	switch kind {
+	case "string":
+		return plain, true
+	case "string-in-list":
+		return []interface{}{plain, 1, plain[:n/2], true}, true
+	case "map-key":
+		return map[string]interface{}{plain: 1}, true
+	case "map-value":
+		return map[string]interface{}{"k": plain}, true
+	case "url":
+		u, err := url.Parse("https://example.com/" + plain)
+		if err != nil {
+			return nil, false
+		}
+		return u, true
+	case "bytes":
+		b := make([]byte, n)
+		for i := range b {
+			b[i] = byte(i*7 + 1)
+		}
+		return b, true
+	case "uint16s":
+		a := make([]uint16, n/2+1)
+		for i := range a {
+			a[i] = uint16(i*257 + 3)
+		}
+		return a, true
+	case "runes2": // two-byte characters: a piece boundary at an odd offset falls inside a character
+		return "x" + strings.Repeat("\u00e9", n/2), true
+	case "runes3":
+		return "xy" + strings.Repeat("\u2603", n/3), true
+	case "lines": // line feeds: the CTE Writer's WriteStringPossibleLF / column bookkeeping
+		return c29Pattern(n, "line one\nline 2\n"), true
+	case "escapes": // characters the CTE encoder escapes
+		return c29Pattern(n, "a\"b\\c\td"), true
+	case "bigint":
+		b := new(big.Int).Lsh(big.NewInt(1), uint(8*n))
+		return b.Sub(b, big.NewInt(12345)), true
+	case "struct-field":
+		return c29Struct{Name: plain, Tags: []string{plain[:n/2], "t"}, Blob: []byte(plain[:n/3])}, true
+	}
+	return nil, false
+}
+
+var c29LongEvKinds = []string{"string", "rid", "remote", "custom-text", "custom-binary", "media-type", "media-data", "u8-array", "u32-array", "chunked-string", "chunked-bytes", "comment", "string-then-more"}
+
+func c29LongEvents(kind string, n int) ([]Ev, bool) {
+	plain := []byte(c29Pattern(n, "abcdefghijklmnopqrstuvwxyz0123456789"))
+	doc := func(es ...Ev) []Ev { return append(append([]Ev{{K: "bd"}, {K: "v", N: 0}}, es...), Ev{K: "ed"}) }
+	switch kind {
+	case "string":
+		return doc(Ev{K: "sa", A: events.ArrayTypeString, Data: plain}), true
+	case "rid":
+		return doc(Ev{K: "sa", A: events.ArrayTypeResourceID, Data: plain}), true
+	case "remote":
+		return doc(Ev{K: "sa", A: events.ArrayTypeReferenceRemote, Data: plain}), true
+	case "custom-text":
+		return doc(Ev{K: "ct", N: 1, Data: plain}), true
+	case "custom-binary":
+		return doc(Ev{K: "cb", N: 1, Data: plain}), true
+	case "media-type":
+		return doc(Ev{K: "media", S: "application/x-" + string(plain), Data: []byte{1, 2, 3}}), true
+	case "media-data":
+		return doc(Ev{K: "media", S: "a/b", Data: plain}), true
+	case "u8-array":
+		return doc(Ev{K: "a", A: events.ArrayTypeUint8, N: uint64(n), Data: plain}), true
+	case "u32-array":
+		k := n/4 + 1
+		return doc(Ev{K: "a", A: events.ArrayTypeUint32, N: uint64(k), Data: []byte(c29Pattern(4*k, "\x01\x02\x03\x04\x05"))}), true
+	case "chunked-string":
+		h := n / 3
+		return doc(Ev{K: "ab", A: events.ArrayTypeString}, Ev{K: "ac", N: uint64(h), B: true}, Ev{K: "ad", Data: plain[:h]},
+			Ev{K: "ac", N: uint64(n - h), B: false}, Ev{K: "ad", Data: plain[h : h+(n-h)/2]}, Ev{K: "ad", Data: plain[h+(n-h)/2:]}), true
+	case "chunked-bytes":
+		h := n / 2
+		return doc(Ev{K: "ab", A: events.ArrayTypeUint8}, Ev{K: "ac", N: uint64(n), B: false}, Ev{K: "ad", Data: plain[:h]}, Ev{K: "ad", Data: plain[h:]}), true
+	case "comment":
+		return doc(Ev{K: "cm", B: false, Data: plain}, Ev{K: "pi", N: 1}), true
+	case "string-then-more":
+		return doc(Ev{K: "l"}, Ev{K: "sa", A: events.ArrayTypeString, Data: plain}, Ev{K: "pi", N: 1}, Ev{K: "sa", A: events.ArrayTypeString, Data: plain[:n/2]}, Ev{K: "e"}), true
+	}
+	return nil, false
+}
+
+func c29LongClass(kind string) int {
+	if kind == "string" {
+		return 1
+	}
+	return 2
+}
+
+func c29ParseLongRef(s string) (kind string, n int, ok bool) {
+	p := strings.Split(s, ":")
+	if len(p) != 2 {
+		return "", 0, false
+	}
+	n, err := strconv.Atoi(p[1])
+	return p[0], n, err == nil && n >= 0 && n <= 1<<20
+}
+
+// the lengths one kind is run at: thorough = the whole ladder up to 10000 (the plain string: all of it); quick =
+// just above the fresh scratch buffer and one more (at most 1100 bytes) that moves along the ladder with the seed
+// and the kind (the plain string: eight of them, from 32 bytes up to beyond 64 KiB)
+func (c *Ctx) c29LongLengths(kindIdx int, full bool) []int {
+	ladder := c29LongLadder()
+	if c.Thorough() {
+		out := []int{}
+		for _, n := range ladder {
+			if full || n <= 10000 {
+				out = append(out, n)
+			}
+		}
+		return out
+	}
+	if full {
+		return []int{32, 33, 65, 100, 200, 513, 4097, 70001}
+	}
+	small := []int{}
+	for _, n := range ladder {
+		if n > 33 && n <= 1100 {
+			small = append(small, n)
+		}
+	}
+	rot := int((c.Seed%1000+1000)%1000)*7 + kindIdx*5
+	return []int{33, small[rot%len(small)]}
+}
+
 type c29WInput struct {
+	long  int               // directed long payload: 1 = the plain string (every destination flavour), 2 = another kind
 	desc  string            // for humans
 	ref   map[string]string // how to rebuild it in a replay
 	value interface{}       // marshal inputs
@@ -1045,6 +1233,11 @@ func c29ValueByRef(ref map[string]string) (interface{}, bool) {
 			return nil, false
 		}
 		return c29GenValue(rand.New(rand.NewSource(seed)), 3), true
+	}
+	if s, ok := ref["value_long"]; ok {
+		if kind, n, ok := c29ParseLongRef(s); ok {
+			return c29LongValue(kind, n)
+		}
 	}
 	return nil, false
 }
@@ -1073,6 +1266,11 @@ func c29EventsByRef(ref map[string]string) ([]Ev, bool) {
 			return nil, false
 		}
 		return rec.Evs, true
+	}
+	if s, ok := ref["events_long"]; ok {
+		if kind, n, ok := c29ParseLongRef(s); ok {
+			return c29LongEvents(kind, n)
+		}
 	}
 	return nil, false
 }
@@ -1307,6 +1505,7 @@ func c29ObsCoq(out string, calls int) string {
 const c29Preamble = `Definition lb (n : N) := {| lw_site := LBytes; lw_len := n |}.
 Definition ls (n : N) := {| lw_site := LStringNotLF; lw_len := n |}.
 Definition ll (n : N) := {| lw_site := LStringLF; lw_len := n |}.
+Definition dc (s : site) (k : wkind) (n : N) := (s, {| wc_kind := k; wc_len := n |}).
 Definition ws (calls : list N) (lim : option N) (st : bool) := {| wsc_calls := calls; wsc_limit := lim; wsc_sticky := st |}.
 Definition ob (o : obs_out) (n : N) := {| o_out := o; o_calls := n |}.
 Definition fc (k : N) := {| f_call := k; f_dirty := false |}.
@@ -1382,6 +1581,7 @@ func (c *Ctx) c29WriteJob(cf *caseFile, j c29WJob) {
 	// the writes per event (marshal entries: one pseudo-event)
 	evs := [][]string{}
 	kinds := []string{}
+	unknown := 0
 	for _, cl := range w0.calls {
 		ev := 0
 		if j.entry == "encoder" || j.entry == "rules-encoder" {
@@ -1390,12 +1590,27 @@ func (c *Ctx) c29WriteJob(cf *caseFile, j c29WJob) {
 		for len(evs) <= ev {
 			evs = append(evs, []string{})
 		}
-		evs[ev] = append(evs[ev], cApp(cl.lsite, cNi(cl.n)))
-		if cl.kind == 'S' {
-			kinds = append(kinds, "KWriteString")
-		} else {
-			kinds = append(kinds, "KWrite")
+		ls := cl.lsite
+		if ls == "?" {
+			ls = "lb" // reported below; keeps the case file well-formed
 		}
+		evs[ev] = append(evs[ev], cApp(ls, cNi(cl.n)))
+		if cl.kind == 'S' {
+			kinds = append(kinds, cApp("dc", cl.psite, "KWriteString", cNi(cl.n)))
+		} else {
+			kinds = append(kinds, cApp("dc", cl.psite, "KWrite", cNi(cl.n)))
+		}
+		if cl.lsite == "?" || cl.psite == "SUnknown" {
+			unknown++
+		}
+	}
+	if unknown > 0 {
+		// the destination was called from a place in the library that is none of the write sites of the shape:
+		// nothing is known about the error handling there, and the theorems say nothing about such a call
+		c.Dist("write/" + tag + "/calls-from-unknown-site")
+		c.Fail(Replay{Kind: "write", Key: "C29/harness/unknown-write-site", Input: j.input(none, false, 0),
+			Expect: "every call on the destination is issued by writeBytes / WriteString* of the cbe or cte Writer",
+			Got:    fmt.Sprintf("%d of %d calls on the destination come from elsewhere", unknown, ncalls)})
 	}
 	if j.entry == "encoder" || j.entry == "rules-encoder" {
 		for len(evs) < len(j.in.evs) {
@@ -1438,14 +1653,17 @@ func (c *Ctx) c29WriteJob(cf *caseFile, j c29WJob) {
 		}
 	}
 	one(none, false)
-	// a failure at every call
-	for k := 0; k < ncalls; k++ {
+	// a single transient failure at every call (beyond 300 calls: the first and last 100 and 100 others)
+	for _, k := range c.c29CallIndices(ncalls) {
 		one(c29WSched{calls: map[int]bool{k: true}, limit: -1}, false)
 	}
 	// a failure after every byte offset (quick: a sample of offsets)
 	step := 1
 	if !c.Thorough() && nbytes > 24 {
 		step = nbytes/24 + 1
+		if j.in.long != 0 {
+			step = nbytes/8 + 1 // the directed long payloads are about the calls; the offsets inside them are sampled thinly
+		}
 	}
 	for b := 0; b < nbytes; b += step {
 		one(c29WSched{calls: map[int]bool{}, limit: b}, false)
@@ -1459,7 +1677,7 @@ func (c *Ctx) c29WriteJob(cf *caseFile, j c29WJob) {
 		one(s, false)
 	}
 	// PassThroughPanics: the panic is let out on purpose
-	if ncalls > 0 && (j.entry == "marshal" || j.entry == "marshaler") {
+	if ncalls > 0 && (j.entry == "marshal" || j.entry == "marshaler") && (j.in.long == 0 || c.Thorough()) {
 		one(c29WSched{calls: map[int]bool{c.Rng.Intn(ncalls): true}, limit: -1}, true)
 	}
 	ctor := "WMarshal"
@@ -1495,6 +1713,28 @@ func (c *Ctx) c29WriteJob(cf *caseFile, j c29WJob) {
 			}
 		}
 	}
+}
+
+func (c *Ctx) c29CallIndices(ncalls int) []int {
+	out := []int{}
+	if ncalls <= 300 {
+		for k := 0; k < ncalls; k++ {
+			out = append(out, k)
+		}
+		return out
+	}
+	pick := map[int]bool{}
+	for k := 0; k < 100; k++ {
+		pick[k], pick[ncalls-1-k] = true, true
+	}
+	for len(pick) < 300 {
+		pick[100+c.Rng.Intn(ncalls-200)] = true
+	}
+	for k := range pick {
+		out = append(out, k)
+	}
+	sort.Ints(out)
+	return out
 }
 
 func bucket(n int) int {
@@ -1791,7 +2031,7 @@ func c29BoundaryCTE() [][]byte {
 
 func runC29(c *Ctx) {
 	c29Calibrate()
-	c.Rep.Rule = "write: (value | event stream) x {cbe,cte} x {MarshalCBE/CTE, reused Marshaler, Encoder events, Rules+Encoder events} x destination {io.Writer, io.StringWriter} x schedule {failure at every call index, after every byte offset (quick: <=24 offsets), random multi-failure, sticky}; " +
+	c.Rep.Rule = "write: (value | event stream | every string-like / array / big-number kind at lengths around every power of two from 16 to 65536, so that one logical write is larger than any scratch buffer) x {cbe,cte} x {MarshalCBE/CTE, reused Marshaler, Encoder events, Rules+Encoder events} x destination {io.Writer, io.StringWriter} x schedule {single transient failure at every call index, after every byte offset (quick: <=24 offsets), random multi-failure, sticky}; " +
 		"read: document (generated valid CBE/CTE, boundary set with multi-byte ULEBs / truncations / wrong header, mutated) x {UnmarshalCBE/CTE/CE, reused Unmarshaler, CBE/CTE/universal Decoder.Decode} x bytes-per-Read {all,1,3} x schedule {one failure at every call index x with/without data x transient/sticky, random multi-failure}; " +
 		"non-trivial = the injected failure was actually reached by the operation; distinct = distinct (entry, input, destination/source behaviour, schedule)"
 	cf := c.Cases("iofail", "CE.Model.IoFail", "iofail_case", "iofail_case_ok")
@@ -1846,6 +2086,25 @@ func runC29(c *Ctx) {
 			streams = append(streams, &c29WInput{desc: fmt.Sprintf("events-of(%x)", doc), ref: ref, evs: es})
 		}
 	}
+	// payloads that do not fit the writers' scratch buffers (write side only: the documents are too long for the
+	// every-call read schedules; the read side has its own large documents below)
+	longStreams := []*c29WInput{}
+	for ki, kind := range c29LongKinds {
+		for _, n := range c.c29LongLengths(ki, kind == "string") {
+			ref := map[string]string{"value_long": fmt.Sprintf("%s:%d", kind, n)}
+			if v, ok := c29ValueByRef(ref); ok {
+				winputs = append(winputs, &c29WInput{long: c29LongClass(kind), desc: fmt.Sprintf("long(%s,%d)", kind, n), ref: ref, value: v})
+			}
+		}
+	}
+	for ki, kind := range c29LongEvKinds {
+		for _, n := range c.c29LongLengths(ki+3, kind == "string") {
+			ref := map[string]string{"events_long": fmt.Sprintf("%s:%d", kind, n)}
+			if es, ok := c29EventsByRef(ref); ok {
+				longStreams = append(longStreams, &c29WInput{long: c29LongClass(kind), desc: fmt.Sprintf("long-events(%s,%d)", kind, n), ref: ref, evs: es})
+			}
+		}
+	}
 	for _, format := range []string{"cbe", "cte"} {
 		for _, in := range winputs {
 			for _, entry := range []string{"marshal", "marshaler"} {
@@ -1853,14 +2112,20 @@ func runC29(c *Ctx) {
 					if entry == "marshaler" && sw != (c.Rng.Intn(2) == 0) && !c.Thorough() {
 						continue
 					}
+					if entry == "marshal" && sw && in.long == 2 && !c.Thorough() {
+						continue
+					}
 					c.c29WriteJob(cf, c29WJob{entry: entry, format: format, sw: sw, in: in})
 				}
 			}
 		}
-		for _, in := range streams {
+		for _, in := range append(append([]*c29WInput{}, streams...), longStreams...) {
 			for _, entry := range []string{"encoder", "rules-encoder"} {
 				for _, sw := range []bool{false, true} {
 					if entry == "rules-encoder" && sw != (c.Rng.Intn(2) == 0) && !c.Thorough() {
+						continue
+					}
+					if entry == "encoder" && sw && in.long == 2 && !c.Thorough() {
 						continue
 					}
 					c.c29WriteJob(cf, c29WJob{entry: entry, format: format, sw: sw, in: in})
@@ -2006,7 +2271,7 @@ func replayC29(r *Replay) (bool, string) {
 				s.calls[k] = true
 			}
 		}
-		w := &c29Writer{sched: s, err: c29Errs[errIdx%len(c29Errs)]}
+		w := &c29Writer{sched: s, err: c29Errs[errIdx%len(c29Errs)], trace: in["via_bufio"] != "true"}
 		var dest io.Writer = w.dest(j.sw)
 		if in["via_bufio"] == "true" {
 			dest = bufio.NewWriterSize(w, 16)
@@ -2015,6 +2280,15 @@ func replayC29(r *Replay) (bool, string) {
 		okv, expect, _ := c29WriteVerdict(j, out, w)
 		if in["via_bufio"] == "true" {
 			okv, expect = !w.failed || out == "err", "err"
+		}
+		unknown := 0
+		for _, cl := range w.calls {
+			if w.trace && (cl.lsite == "?" || cl.psite == "SUnknown") {
+				unknown++
+			}
+		}
+		if unknown > 0 {
+			return false, fmt.Sprintf("%s %s: %d of %d calls on the destination are issued from a place that is none of the write sites whose error handling is known -> %s", j.format, j.entry, unknown, len(w.calls), out)
 		}
 		return okv, fmt.Sprintf("%s %s: destination calls=%d failed=%v -> %s (required when the destination failed: %s)", j.format, j.entry, len(w.calls), w.failed, out, expect)
 	case "read":
